@@ -57,11 +57,22 @@ Agrees(ws, Pn, x) ==
   LET O == Run(V(case), S, ws, 1, x, WB) IN
   \/ \E o \in O : o.rc = -1
   \/ \A o \in O : o.rc = (IF Pn = FAIL THEN 1 ELSE 0) /\ ReplyOk(case, sp, Pn, x, WB, o.reply)
+\* how the last word relates to the meaning (used only to spread the replay budget over different situations)
+Tag(w) ==
+  LET Pn == StepWord(case, sp, P, w) IN
+  IF Pn = FAIL THEN
+       (IF \E p \in P \ {END} : IsCmdK(sp.top.item[p].k) THEN "fail_at_command_point"
+        ELSE IF \E p \in P \ {END} : sp.top.item[p].k = "sub" /\ InnerIncomplete(case, sp.sub[p], w) THEN "fail_word_incomplete"
+        ELSE "fail_other")
+  ELSE IF LitAt(case, sp, P, w) = {} /\ \E p \in SubAt(case, sp, P, w) : \E l \in InnerLevels(sp.sub[p]) : InnerReqAt(case, sp.sub[p], w, l) # {}
+       THEN "value_with_longer_sibling"
+  ELSE IF \E p \in P \ {END} : IsCmdK(sp.top.item[p].k) THEN "matched_at_command_point"
+  ELSE "matched"
 Bad ==
-  { [words |-> <<>>, prefix |-> x] : x \in { y \in TryPrefixes(case, sp, P) : ~Agrees(<<>>, P, y) } } \cup
+  { [words |-> <<>>, prefix |-> x, tag |-> "cursor_only"] : x \in { y \in TryPrefixes(case, sp, P) : ~Agrees(<<>>, P, y) } } \cup
   UNION { LET Pn == StepWord(case, sp, P, w) IN
           IF StepUnclear(case, sp, P, w) THEN {}
-          ELSE { [words |-> <<w>>, prefix |-> x] : x \in { y \in TryPrefixes(case, sp, Pn) : ~Agrees(<<w>>, Pn, y) } }
+          ELSE { [words |-> <<w>>, prefix |-> x, tag |-> Tag(w)] : x \in { y \in TryPrefixes(case, sp, Pn) : ~Agrees(<<w>>, Pn, y) } }
           : w \in Vocabulary(case, sp, P) }
 Report == Bad = {} \/ PrintT(<<"PREDICTION", ToJson([id |-> Cases[case].id, hist |-> hist, bad |-> Bad])>>)
 Seen == PrintT(<<"EXPLORED", Cases[case].id, Len(hist)>>)
